@@ -87,10 +87,10 @@ theorem readGroupHeader_cases {mal : Nat} {strict : Bool} {inp inp' : Bytes} {le
         right
         exact ⟨hneg, hl, rfl, rfl⟩
 
-theorem readGroups_len {allocCap mal : Nat} {strict : Bool} {dataLen : Nat} (hd : dataLen < 2 ^ 64) :
+theorem readGroups_len {mal : Nat} {strict : Bool} {dataLen : Nat} (hd : dataLen < 2 ^ 64) :
     ∀ (n : Nat) (inp : Bytes) (ctr : Counters) (atoms : List Bytes) (inp' : Bytes) (c' : Counters) (a' : List Bytes),
     inp.length ≤ dataLen →
-    readGroups allocCap mal strict n inp ctr atoms = .ok (inp', c', a') →
+    readGroups mal strict n inp ctr atoms = .ok (inp', c', a') →
       lenGroups mal strict dataLen n inp = .ok inp' ∧ inp'.length ≤ inp.length := by
   intro n
   induction n with
@@ -109,46 +109,44 @@ theorem readGroups_len {allocCap mal : Nat} {strict : Bool} {dataLen : Nat} (hd 
       · rename_i hz
         split at h
         · cases h
-        · split at h
-          · cases h
-          · rename_i inp2 ctr2 atoms2 hra
-            obtain ⟨hmul, hdrop⟩ := readAtoms_ok _ _ _ _ _ _ _ hra
-            obtain ⟨lv, inpA, hv, hcase⟩ := readGroupHeader_cases hh
-            have hvl := readVarint_length hv
-            have hz' : ¬ (length = 0 ∨ count = 0) := by simpa using hz
-            rcases hcase with ⟨hneg, hmin, hl, cv, hv2, hc⟩ | ⟨hneg, hl, hc1, hi⟩
-            · have hv2l := readVarint_length hv2
-              have hinp2 : inp2.length ≤ dataLen := by rw [hdrop]; simp; omega
-              obtain ⟨r1, r2⟩ := ih inp2 ctr2 atoms2 inp' c' a' hinp2 h
-              refine ⟨?_, by rw [hdrop] at r2; simp at r2; omega⟩
-              rw [lenGroups, hv]
-              simp only [hneg, if_true, hmin, Bool.false_eq_true, if_false, hl, hv2, hc]
-              have e1 : (length == 0 || count == 0) = false := by
-                simp; omega
-              have e2 : ¬ (length * count ≥ 2 ^ 64) := by omega
-              simp only [e1, Bool.false_eq_true, if_false, e2]
-              have e3 : ¬ (dataLen - inp1.length + length * count ≥ 2 ^ 64) := by omega
-              have e4 : ¬ (dataLen - inp1.length + length * count > dataLen) := by omega
-              simp only [e3, e4, if_false]
-              rw [← hdrop]; exact r1
-            · subst hc1 hi
-              simp only [Nat.mul_one] at hmul hdrop
-              have hinp2 : inp2.length ≤ dataLen := by rw [hdrop]; simp; omega
-              obtain ⟨r1, r2⟩ := ih inp2 ctr2 atoms2 inp' c' a' hinp2 h
-              refine ⟨?_, by rw [hdrop] at r2; simp at r2; omega⟩
-              rw [lenGroups, hv]
-              simp only [hneg, if_false, hl]
-              have e1 : (length == 0) = false := by simp; omega
-              simp only [e1, Bool.false_eq_true, if_false]
-              have e3 : ¬ (dataLen - inp1.length + length ≥ 2 ^ 64) := by omega
-              have e4 : ¬ (dataLen - inp1.length + length > dataLen) := by omega
-              simp only [e3, e4, if_false]
-              rw [← hdrop]; exact r1
+        · rename_i inp2 ctr2 atoms2 hra
+          obtain ⟨hmul, hdrop⟩ := readAtoms_ok _ _ _ _ _ _ _ hra
+          obtain ⟨lv, inpA, hv, hcase⟩ := readGroupHeader_cases hh
+          have hvl := readVarint_length hv
+          have hz' : ¬ (length = 0 ∨ count = 0) := by simpa using hz
+          rcases hcase with ⟨hneg, hmin, hl, cv, hv2, hc⟩ | ⟨hneg, hl, hc1, hi⟩
+          · have hv2l := readVarint_length hv2
+            have hinp2 : inp2.length ≤ dataLen := by rw [hdrop]; simp; omega
+            obtain ⟨r1, r2⟩ := ih inp2 ctr2 atoms2 inp' c' a' hinp2 h
+            refine ⟨?_, by rw [hdrop] at r2; simp at r2; omega⟩
+            rw [lenGroups, hv]
+            simp only [hneg, if_true, hmin, Bool.false_eq_true, if_false, hl, hv2, hc]
+            have e1 : (length == 0 || count == 0) = false := by
+              simp; omega
+            have e2 : ¬ (length * count ≥ 2 ^ 64) := by omega
+            simp only [e1, Bool.false_eq_true, if_false, e2]
+            have e3 : ¬ (dataLen - inp1.length + length * count ≥ 2 ^ 64) := by omega
+            have e4 : ¬ (dataLen - inp1.length + length * count > dataLen) := by omega
+            simp only [e3, e4, if_false]
+            rw [← hdrop]; exact r1
+          · subst hc1 hi
+            simp only [Nat.mul_one] at hmul hdrop
+            have hinp2 : inp2.length ≤ dataLen := by rw [hdrop]; simp; omega
+            obtain ⟨r1, r2⟩ := ih inp2 ctr2 atoms2 inp' c' a' hinp2 h
+            refine ⟨?_, by rw [hdrop] at r2; simp at r2; omega⟩
+            rw [lenGroups, hv]
+            simp only [hneg, if_false, hl]
+            have e1 : (length == 0) = false := by simp; omega
+            simp only [e1, Bool.false_eq_true, if_false]
+            have e3 : ¬ (dataLen - inp1.length + length ≥ 2 ^ 64) := by omega
+            have e4 : ¬ (dataLen - inp1.length + length > dataLen) := by omega
+            simp only [e3, e4, if_false]
+            rw [← hdrop]; exact r1
 
 /-- **probe = bytes consumed** for the prefix-framed decoder -/
-theorem len_eq_consumed {allocCap : Nat} {ctr c' : Counters} {inp rest : Bytes} {mal : Nat} {strict : Bool}
+theorem len_eq_consumed {ctr c' : Counters} {inp rest : Bytes} {mal : Nat} {strict : Bool}
     {t : Tree} (hlen : inp.length < 2 ^ 64)
-    (h : deserializeFromStream allocCap ctr inp mal strict = .ok (t, rest, c')) :
+    (h : deserializeFromStream ctr inp mal strict = .ok (t, rest, c')) :
     serializedLength2026 inp mal strict = .ok (inp.length - rest.length) := by
   unfold deserializeFromStream at h
   split at h
